@@ -22,7 +22,6 @@ type enumerator struct {
 	onpath map[string]bool
 }
 
-
 func (m *enumerator) normalize(c cfg) cfg {
 	if c.ended {
 		return c
@@ -166,7 +165,6 @@ func (m *enumerator) dfs(c cfg, optb map[*OptDecl][]string, argb []struct {
 		}
 	}
 }
-
 
 // Bindings enumerates the distinct bindings the reference admits for argv (exhaustive DFS with a step cap).
 // Unclaimed is set when a zone was touched or the cap was hit: the enumeration is then not to be relied upon.
